@@ -3,6 +3,7 @@ CONSTANTS
   Pres = {"fresh", "offerer", "answerer"}
   Modes = {"WebRtc", "Srtp", "Rtp"}
   Medias = {"av"}
+  MediaOps = {"add_transceiver", "create_data_channel", "add_track"}
   Envs = {"ok"}
   LocalClasses = {"fresh", "changed", "unchanged"}
   RemoteClasses = {"fresh", "changed", "unchanged", "nofp", "badalg", "mid65535"}
